@@ -41,6 +41,9 @@ def check(ctx, R):
         from .c03 import _read_exact as read_exact_rules, _packet_reader as packet_reader_rules
         read_exact_rules(ctx, R, roles, T)        # "all read fragmentations"
         packet_reader_rules(ctx, R, roles, T)
+        # a reply that overtakes the OKAY for the LIST / STAT request is part of the reply stream ("any packetisation")
+        from .c10 import _nd_own as early_reply_rules
+        early_reply_rules(ctx, R, roles, T)
     R.assume("the record reader returns (id, header fields between id and length, payload) - checked in C08")
 
 
